@@ -392,6 +392,7 @@ type vfStopRapid struct{}
 // vfCheck is the common shape of a generated check: regress/replay files first (bypassing rapid), then
 // rapid.Check over gen → run.
 func vfCheck[T any](t *testing.T, c *vfCollector, gen func(*rapid.T) T, run func(T) string) {
+	defer vfFlushAll()
 	for _, f := range vfCaseFilesFor(c.Test) {
 		var cs T
 		if err := json.Unmarshal(f.Case, &cs); err != nil {
@@ -405,8 +406,8 @@ func vfCheck[T any](t *testing.T, c *vfCollector, gen func(*rapid.T) T, run func
 			c.label("casefile_pass")
 		}
 	}
-	if vfReplayOnly() {
-		return
+	if vfReplayOnly() || t.Failed() {
+		return // a failing saved case is the verdict; rapid refuses a *testing.T that has already failed
 	}
 	rapid.Check(t, func(rt *rapid.T) {
 		cs := gen(rt)
